@@ -48,6 +48,8 @@ def _clip_state(x):
 
 
 GEO = U1('geopotential_diff')
+HOP = U1('temperature_implicit_operator')          # get_temperature_implicit(., T_ref, kappa): linear on the level axis, carries kappa * T_ref (C03 / C04)
+SIGSUM = U1('thickness_weighted_sum')
 
 
 class Marker:
@@ -111,6 +113,10 @@ def _setup(en):
   # the real default of `ideal_gas_constant` is a bare number (the constant non-dimensionalised under the default scale): kept as such
   en.contracts[E._callable_key(pe.get_geopotential_diff)] = lambda en_, t, coords, r=pe.IDEAL_GAS_CONSTANT, **k: W.SCALE(E._real(r), GEO(t))
   en.trusted.add('callee contract: get_geopotential_diff(T, ., R) == R * (a linear operator on the level axis)(T): C03 / C13')
+  en.contracts[E._callable_key(pe.get_temperature_implicit)] = lambda en_, d, coords, tref, kappa=None, **k: W.SCALE(E._real(kappa), HOP(d))
+  en.contracts[E._callable_key(pe._vertical_matvec)] = lambda en_, w, x: SIGSUM(x)
+  import jax.numpy as jnp
+  _reg(en, jnp.zeros_like, lambda en_, x: W.SCALE(z3.RealVal(0), x), 'jnp.zeros_like(x) == 0 * x')
   en.contracts[E._callable_key(pe.DiagnosticState)] = lambda en_, **kw: E.Obj(**kw)
   _reg(en, np.cumsum, lambda en_, x, *a, **k: Marker('sigma_half') if isinstance(x, Marker) else (_ for _ in ()).throw(E.Unsupported('cumsum')), 'np.cumsum(layer_thickness): the half-level sigma values')
   en.libspec[('subscript', 'Marker')] = (None, lambda en_, m, idx: SIGH)
@@ -146,23 +152,23 @@ def _grid(en):
 FIELDS = ('vorticity', 'divergence', 'temperature_variation', 'log_surface_pressure')
 
 
-def _run_primitive(en, g, state, oro, moist=False):
+def _run_primitive(en, g, state, oro, moist=False, method='explicit_terms'):
   from dinosaur import primitive_equations as pe, sigma_coordinates as sc
   Rg, grav, kappa = en.real('ideal_gas_constant'), en.real('gravity'), en.real('kappa')
-  specs = E.Obj(R=Rg, g=grav, kappa=kappa)
+  specs = E.Obj(R=Rg, ideal_gas_constant=Rg, g=grav, kappa=kappa)
   if moist:
     specs.R_vapor, specs.Cp, specs.Cp_vapor = en.real('R_vapor'), en.real('Cp'), en.real('Cp_vapor')
   coords = E.Obj(horizontal=g, vertical=E.Obj(layers=en.int('layers'), layer_thickness=Marker('thickness')), dycore_sharding=None)
   self = E.Obj(class_ref=pe.MoistPrimitiveEquations if moist else pe.PrimitiveEquations, coords=coords, orography=oro, coriolis_parameter=W.CORIOLIS, T_ref=TREF,
-               include_vertical_advection=True, vertical_advection=sc.centered_vertical_advection, physics_specs=specs, vertical_matmul_method='dense',
+               include_vertical_advection=True, vertical_advection=sc.centered_vertical_advection, physics_specs=specs, vertical_matmul_method='dense', reference_temperature=TREF,
                _t_omega_over_sigma_sp=E.SymCallable(lambda en_, t, gt, v: W.TOMEGA(t, gt, v), '_t_omega_over_sigma_sp (column contract: C05)'))
-  kind, out = en.invoke(en.getattr(self, 'explicit_terms'), state)
+  kind, out = en.invoke(en.getattr(self, method), state)
   if kind == 'raise':
-    raise E.Unsupported(f'explicit_terms raised {out}')
+    raise E.Unsupported(f'{method} raised {out}')
   return out
 
 
-def primitive_equivariance_contract(en: E.Engine, moist=False):
+def primitive_equivariance_contract(en: E.Engine, moist=False, method='explicit_terms'):
   W._neg_fix(en)
   g, r = _grid(en)
   C = lambda nm: z3.Const(nm, Fld)
@@ -175,12 +181,12 @@ def primitive_equivariance_contract(en: E.Engine, moist=False):
     en.assume(z3.And(z3.Real('Cp') > 0, z3.Real('ideal_gas_constant') > 0))
   en.cover('requires: radius > 0')
   ORO = W.ORO
-  fx = _run_primitive(en, g, mk(x, +1), ORO, moist)
+  fx = _run_primitive(en, g, mk(x, +1), ORO, moist, method)
   alg = ML.Algebra(bilinear={'vertical_advection'}, opaque={'t_omega_over_sigma_sp', 'nodal_reciprocal'})
   for sym, pre, zsign, op_sign, coriolis_img in (('mirror', 'm_', -1, {'cos_lat_d_dlat': -1, 'sec_lat_d_dlat_cos2': -1}, W.NEG(W.CORIOLIS)), ('rotation', 'r_', +1, {}, W.CORIOLIS)):
     tx = {n: C(pre + n) for n in names}
     oro_t = C(pre + 'orography')
-    ftx = _run_primitive(en, g, mk(tx, zsign), oro_t, moist)
+    ftx = _run_primitive(en, g, mk(tx, zsign), oro_t, moist, method)
     atom_map = {n: tx[n] for n in names}
     atom_map.update({'orography': oro_t, 'coriolis_parameter': coriolis_img, 'sec2_lat': W.SEC2F, 'sigma_half_levels': SIGH, 'T_ref': TREF, 'nodal_one': ONE})
     outs = [(f, getattr(fx, f), getattr(ftx, f)) for f in FIELDS] + [(f'tracer {qname}', fx.tracers[qname], ftx.tracers[qname])]
@@ -189,7 +195,7 @@ def primitive_equivariance_contract(en: E.Engine, moist=False):
       if f == 'vorticity' and zsign < 0:
         img = W.NEG(img)
       ok, why = alg.equal(b, img)
-      en.results.append(E.ObligationResult(f'{sym}: explicit_terms(T x).{f} == T explicit_terms(x).{f}' + (' (pseudo-scalar: sign flips)' if f == 'vorticity' and zsign < 0 else ''),
+      en.results.append(E.ObligationResult(f'{sym}: {method}(T x).{f} == T {method}(x).{f}' + (' (pseudo-scalar: sign flips)' if f == 'vorticity' and zsign < 0 else ''),
                                            'valid' if ok else 'invalid', back_end='multilinear-normal-form', detail=why))
 
 
@@ -247,7 +253,10 @@ SCALAR_DIMS = {'radius': LEN, 'ideal_gas_constant': RGAS, 'R_vapor': RGAS, 'Cp':
 ATOM_DIMS = {'zeta': (0, -1, 0), 'delta': (0, -1, 0), 'T': TEMP, 'lnps': DIM0, 'q': DIM0, 'phi': (2, -2, 0), 'orography': None, 'coriolis_parameter': (0, -1, 0),
              'sec2_lat': DIM0, 'sigma_half_levels': DIM0, 'T_ref': TEMP, 'nodal_one': DIM0}
 # operators that carry a dimension of their own (by their contracts: the Laplacian eigenvalues are -l(l+1)/radius^2, C02); all others are dimensionless maps
-OP_DIMS = {'laplacian': (-2, 0, 0), 'inverse_laplacian': (2, 0, 0)}
+OP_DIMS = {'laplacian': (-2, 0, 0), 'inverse_laplacian': (2, 0, 0), 'temperature_implicit_operator': TEMP}
+
+
+ZERO = 'zero'          # dimension of the exact zero field: compatible with every dimension
 
 
 class DimensionError(Exception):
@@ -275,7 +284,15 @@ def scalar_dim(t):
   raise DimensionError(f'no dimension known for scalar {t}')
 
 
-def field_dim(t, atom_dims):
+def field_dim(t, atom_dims, memo=None):
+  memo = {} if memo is None else memo
+  k_ = t.get_id()
+  if k_ not in memo:
+    memo[k_] = _field_dim(t, atom_dims, memo)
+  return memo[k_]
+
+
+def _field_dim(t, atom_dims, memo):
   name, ch = t.decl().name(), t.children()
   if not ch:
     d = atom_dims.get(str(t))
@@ -283,31 +300,38 @@ def field_dim(t, atom_dims):
       raise DimensionError(f'no dimension given for field {t}')
     return d
   if name in ('fld_add', 'fld_sub'):
-    da, db = field_dim(ch[0], atom_dims), field_dim(ch[1], atom_dims)
+    da, db = field_dim(ch[0], atom_dims, memo), field_dim(ch[1], atom_dims, memo)
+    if da is ZERO or db is ZERO:           # an exact zero has every dimension
+      return db if da is ZERO else da
     if da != db:
       raise DimensionError(f'terms of dimensions {da} and {db} (length, time, temperature exponents) are added: {str(ch[0])[:160]}  +/-  {str(ch[1])[:160]}')
     return da
   if name == 'fld_neg':
-    return field_dim(ch[0], atom_dims)
+    return field_dim(ch[0], atom_dims, memo)
+  if name != 't_omega_over_sigma_sp' and any(field_dim(c, atom_dims, memo) is ZERO for c in ch if str(c.sort()) == 'Fld'):
+    return ZERO                             # every operator here is linear in each field argument: it maps zero to zero
   if name == 'fld_scale':
-    return _dmul(scalar_dim(ch[0]), field_dim(ch[1], atom_dims))
+    if z3.is_rational_value(ch[0]) and ch[0].numerator_as_long() == 0:
+      return ZERO
+    d = field_dim(ch[1], atom_dims, memo)
+    return ZERO if d is ZERO else _dmul(scalar_dim(ch[0]), d)
   if name == 'fld_div':
-    return _dmul(field_dim(ch[0], atom_dims), _dinv(scalar_dim(ch[1])))
+    return _dmul(field_dim(ch[0], atom_dims, memo), _dinv(scalar_dim(ch[1])))
   if name in ('nodal_mul', 'vertical_advection'):
-    return _dmul(field_dim(ch[0], atom_dims), field_dim(ch[1], atom_dims))
+    return _dmul(field_dim(ch[0], atom_dims, memo), field_dim(ch[1], atom_dims, memo))
   if name == 'nodal_reciprocal':
-    return _dinv(field_dim(ch[0], atom_dims))
+    return _dinv(field_dim(ch[0], atom_dims, memo))
   if name == 't_omega_over_sigma_sp':
-    dg, dv = field_dim(ch[1], atom_dims), field_dim(ch[2], atom_dims)
+    dg, dv = field_dim(ch[1], atom_dims, memo), field_dim(ch[2], atom_dims, memo)
     if dg != dv:
       raise DimensionError(f'omega term: G and v.grad(ln ps) have dimensions {dg} and {dv}')
-    return _dmul(field_dim(ch[0], atom_dims), dg)
+    return _dmul(field_dim(ch[0], atom_dims, memo), dg)
   if len(ch) == 1:
-    return _dmul(OP_DIMS.get(name, DIM0), field_dim(ch[0], atom_dims))
+    return _dmul(OP_DIMS.get(name, DIM0), field_dim(ch[0], atom_dims, memo))
   raise DimensionError(f'operator {name} has no dimension rule')
 
 
-def dimension_contract(en: E.Engine, which='dry'):
+def dimension_contract(en: E.Engine, which='dry', method='explicit_terms'):
   """Every explicit tendency is dimensionally homogeneous, with the dimension of its field per unit time: length, time and temperature
   exponents are propagated through the operator expression computed from the real source; two terms of different dimensions can never be added.
   A dimensionally homogeneous expression takes the same physical value in every system of units: scales only relabel numbers."""
@@ -332,17 +356,17 @@ def dimension_contract(en: E.Engine, which='dry'):
       en.assume(z3.And(z3.Real('Cp') > 0, z3.Real('ideal_gas_constant') > 0))
     st = mkstate(vorticity=C('zeta'), divergence=C('delta'), temperature_variation=C('T'), log_surface_pressure=C('lnps'), tracers={qname: C('q')},
                  **({'sim_time': en.real('sim_time')} if moist else {}))
-    out = _run_primitive(en, g, st, W.ORO, moist)
+    out = _run_primitive(en, g, st, W.ORO, moist, method)
     dims = dict(ATOM_DIMS, orography=LEN)                   # primitive equations: the orography is a height (multiplied by g in the code)
     fields = [('vorticity', out.vorticity, ATOM_DIMS['zeta']), ('divergence', out.divergence, ATOM_DIMS['delta']), ('temperature_variation', out.temperature_variation, TEMP),
               ('log_surface_pressure', out.log_surface_pressure, DIM0), (f'tracer {qname}', out.tracers[qname], DIM0)]
   for nm, term, d in fields:
     try:
       got = field_dim(term, dims)
-      ok, why = got == per_time(d), f'dimension (length, time, temperature) = {got}, expected {per_time(d)}'
+      ok, why = (got is ZERO or got == per_time(d)), f'dimension (length, time, temperature) = {got}, expected {per_time(d)}'
     except DimensionError as e:
       ok, why = False, str(e)
-    en.results.append(E.ObligationResult(f'{which}: the {nm} tendency is dimensionally homogeneous with dimension [{nm}] / time', 'valid' if ok else 'invalid', back_end='dimension-typing', detail=why))
+    en.results.append(E.ObligationResult(f'{which} {method}: the {nm} tendency is dimensionally homogeneous with dimension [{nm}] / time', 'valid' if ok else 'invalid', back_end='dimension-typing', detail=why))
 
 
 def dimension_canary(en: E.Engine):
@@ -366,6 +390,8 @@ def dimension_clauses():
   return [
       Clause('smt:dry explicit tendencies are dimensionally homogeneous ([field] / time) as operator expressions: invariant under a change of units (all fields, sizes)', 'smt',
              [P + 'PrimitiveEquations.explicit_terms', P + 'compute_diagnostic_state'], rc(dimension_contract, 5, which='dry'), group='pyvc'),
+      Clause('smt:dry implicit tendencies are dimensionally homogeneous ([field] / time) as operator expressions (all fields, sizes)', 'smt',
+             [P + 'PrimitiveEquations.implicit_terms'], rc(dimension_contract, 5, which='dry', method='implicit_terms'), group='pyvc'),
       Clause('smt:moist explicit tendencies are dimensionally homogeneous ([field] / time) as operator expressions (all fields, sizes)', 'smt',
              [P + 'MoistPrimitiveEquations.explicit_terms'], rc(dimension_contract, 5, which='moist'), group='pyvc'),
       Clause('smt:shallow-water explicit tendencies are dimensionally homogeneous ([field] / time) as operator expressions (all fields, sizes)', 'smt',
@@ -400,6 +426,8 @@ def clauses():
       Clause('smt:PrimitiveEquations.explicit_terms equivariant under the equatorial mirror and under rotations as an operator expression (all fields, sizes, level counts)', 'smt',
              [P + 'PrimitiveEquations.explicit_terms', P + 'compute_diagnostic_state', P + 'PrimitiveEquations.curl_and_div_tendencies', 'dinosaur.spherical_harmonic.get_cos_lat_vector'],
              rc(primitive_equivariance_contract, 10), group='pyvc'),
+      Clause('smt:PrimitiveEquations.implicit_terms equivariant under the equatorial mirror and under rotations as an operator expression (all fields, sizes, level counts)', 'smt',
+             [P + 'PrimitiveEquations.implicit_terms'], rc(primitive_equivariance_contract, 10, method='implicit_terms'), group='pyvc'),
       Clause('smt:MoistPrimitiveEquations.explicit_terms (virtual temperature, humidity corrections of vorticity and divergence) equivariant under the equatorial mirror and under rotations as an operator expression', 'smt',
              [P + 'MoistPrimitiveEquations.explicit_terms', P + 'MoistPrimitiveEquations.curl_and_div_tendencies', P + 'MoistPrimitiveEquations.divergence_tendency_due_to_humidity',
               P + 'MoistPrimitiveEquations.vorticity_tendency_due_to_humidity', P + 'MoistPrimitiveEquations.nodal_temperature_adiabatic_tendency'],
